@@ -58,9 +58,19 @@ package utils
 //@   go-opaque NewResponseForwarder$1
 //@   ensures r1 == nil && r0 != nil
 
-//@ func ListPendingRequests props(C07)
+// A poll is one GET of the pending path that names this agent's backend id (without it the proxy would treat the call
+// as a client request), and the ids come from that call's reply.
+//@ func ListPendingRequests props(C04,C01,C07)
 //@   requires client != nil
 //@   assigns ghost rdPos, ghost rdCalls
+//@   ghost polls int = 0
+//@   ghost reply *http.Response = nil
+//@   call (*http.Client).Do
+//@     assert[C01:poll-names-this-backend] polls == 0 && arg0 == client && len(values(arg1.Header, "X-Inverting-Proxy-Backend-ID")) == 1 && values(arg1.Header, "X-Inverting-Proxy-Backend-ID")[0] == backendID && !in("X-Inverting-Proxy-Request-ID", arg1.Header)
+//@     do polls = polls + 1
+//@     do reply = ret0
+//@   call parseRequestIDs
+//@     assert[C04:ids-come-from-this-polls-reply] polls == 1 && arg0 == reply
 
 //@ func ReadRequest props(C01,C04,C07)
 //@   requires client != nil
@@ -348,3 +358,15 @@ package utils
 //@     assert[C04:ids-decoded-from-the-bytes-read] reads == 1 && arg0 == body && response.StatusCode == 200 && len(body) > 0
 //@   ensures[C04:only-a-200-reply-yields-ids] response.StatusCode != 200 ==> r1 != nil && len(r0) == 0
 //@   ensures[C04:empty-body-is-an-empty-list] r1 == nil && len(body) == 0 ==> len(r0) == 0
+
+// ---- shutdown signal (C20): the returned channel is closed when, and only when, a SIGINT/SIGTERM has been received ----
+//@ func ShutdownSignalChan$1 props(C20)
+//@   requires sigs != nil && ch != nil && !closed(ch)
+//@   ghost got int = 0
+//@   ghost closedCh int = 0
+//@   recv sigs
+//@     do got = got + 1
+//@   close ch
+//@     assert[C20:shutdown-announced-only-after-a-signal] got == 1 && arg0 == ch && closedCh == 0
+//@     do closedCh = closedCh + 1
+//@   ensures[C20:a-received-signal-is-announced] closedCh == 1
